@@ -51,7 +51,9 @@ type Contract struct {
 	Loops        map[int]*LoopSpec
 	Iters        map[int]*LoopSpec // invariants for iterate-with-closure call sites, by ordinal
 	Trusted      bool
-	Refined      string // trusted table-level accessor contract that a lemma of the same package derives from the verified store-level (@store) contract of the same function
+	argAlias     map[string]string // adopted copies: name of a caller's variable -> the helper's parameter that receives it
+	adopted      bool              // a copy handed to an inlined helper that took over loops of the function under contract
+	Refined      string            // trusted table-level accessor contract that a lemma of the same package derives from the verified store-level (@store) contract of the same function
 	Pure         bool
 	Inline       bool
 	Concrete     bool // strings concrete
